@@ -3,7 +3,7 @@
 
 use std::collections::HashMap;
 
-use volute::sop::{Esop, Soes, Sop};
+use volute::sop::{Cube, Ecube, Esop, Soes, Sop};
 
 use vmon::twolevel::{all_cubes, CubeM, EcubeM, Formula};
 use vmon::*;
@@ -91,6 +91,19 @@ fn show<D: std::fmt::Display>(d: &D, salt: u64) -> (String, Result<usize, (&'sta
     (text, routes)
 }
 
+/// `s` itself, a clone, or the result of `clone_from(&s)` over one of two other objects (chosen by `salt`).
+fn with_history<T: Clone>(s: T, others: [T; 2], salt: u64) -> T {
+    match (salt >> 11) % 6 {
+        0..=2 => s,
+        3 => s.clone(),
+        k => {
+            let mut d = others[(k - 4) as usize].clone();
+            d.clone_from(&s);
+            d
+        }
+    }
+}
+
 fn exec(ctx: &mut Ctx, ev: &Ev, rng: &mut Rng) -> Option<String> {
     let n = ev.n;
     let kind = Kind::of(&ev.ty);
@@ -110,16 +123,24 @@ fn exec(ctx: &mut Ctx, ev: &Ev, rng: &mut Rng) -> Option<String> {
             let c = EcubeM { vars: terms[0].0, xnor: terms[0].1 == 1 }.real();
             (show(&c, salt), asg.iter().map(|m| c.value(*m as usize)).collect())
         }
+        // two-level forms with a history: a third of the time the printed object was obtained by `clone()` or by
+        // `clone_from` over an object of a smaller / larger arity (with room for the terms)
         Kind::Sop => {
             let s = Sop::from_cubes(n, terms.iter().map(|t| CubeM::new(t.0, t.1).real()).collect());
+            let pad: Vec<Cube> = (0..terms.len() + 2).map(|_| Cube::one()).collect();
+            let s = with_history(s, [Sop::from_cubes(n.saturating_sub(2), pad.clone()), Sop::from_cubes(n + 3, pad)], salt);
             (show(&s, salt), asg.iter().map(|m| s.value(*m as usize)).collect())
         }
         Kind::Esop => {
             let s = Esop::from_cubes(n, terms.iter().map(|t| CubeM::new(t.0, t.1).real()).collect());
+            let pad: Vec<Cube> = (0..terms.len() + 2).map(|_| Cube::one()).collect();
+            let s = with_history(s, [Esop::from_cubes(n.saturating_sub(2), pad.clone()), Esop::from_cubes(n + 3, pad)], salt);
             (show(&s, salt), asg.iter().map(|m| s.value(*m as usize)).collect())
         }
         Kind::Soes => {
             let s = Soes::from_cubes(n, terms.iter().map(|t| EcubeM { vars: t.0, xnor: t.1 == 1 }.real()).collect());
+            let pad: Vec<Ecube> = (0..terms.len() + 2).map(|_| Ecube::one()).collect();
+            let s = with_history(s, [Soes::from_cubes(n.saturating_sub(2), pad.clone()), Soes::from_cubes(n + 3, pad)], salt);
             (show(&s, salt), asg.iter().map(|m| s.value(*m as usize)).collect())
         }
     });
